@@ -303,9 +303,10 @@ func (w *dnsWorld) c08FlushLRU() {
 				continue
 			}
 			au, oka := w.track.lastUse[a.key]
-			if !a.refreshed && (!oka || a.insertedAt > au.max) {
-				// storing an answer under a key that had no entry counts as a use of that key
-				// (also when the lookup was dae's own companion query for the other address family)
+			if !a.replacedExisting && !a.restored && (!oka || a.insertedAt > au.max) {
+				// storing an answer under a key that had no entry at that moment counts as a use of
+				// that key (also when it was fetched by dae's own companion query, or by a refresh
+				// whose stale entry had been evicted before the answer arrived)
 				au, oka = dnsUse{min: a.insertedAt, max: a.insertedAt}, true
 			}
 			if !oka {
